@@ -65,6 +65,7 @@ type RetryOpts struct {
 	ManualQoS           int    `json:"manualQoS,omitempty"`
 	OnErrorStats        bool   `json:"onErrorStats,omitempty"`   // the OnError callback looks at Stats() (e.g. to log the queue lengths)
 	HandleViaRetry      bool   `json:"handleViaRetry,omitempty"` // Handle is called on the RetryClient that was given to WithRetryClient, not on the reconnecting client
+	AsyncHandlerMs      int    `json:"asyncHandlerMs,omitempty"` // handlers are wrapped in ServeAsync and take this long
 	StopApps            int    `json:"stopApps,omitempty"`       // the SetClient / submit / Disconnect run of manual.go (binding of RetryStop.tla)
 	StopSkewUs          int    `json:"stopSkewUs,omitempty"`
 	PromptAcks          bool   `json:"promptAcks,omitempty"`     // Write returns only after the client's reader consumed the broker's answer
@@ -428,10 +429,18 @@ func runRetry(sc *RetryScenario) *RetryResult {
 				})
 			}
 			rec.Emit(netsim.Event{"e": "Handle", "h": r.H, "phase": "call"})
+			var hdl mqtt.Handler = mk(r.H, r.Swap)
+			if sc.Opts.AsyncHandlerMs > 0 {
+				inner := hdl
+				hdl = &mqtt.ServeAsync{Handler: mqtt.HandlerFunc(func(m *mqtt.Message) {
+					inner.Serve(m)
+					time.Sleep(ms(sc.Opts.AsyncHandlerMs, 0))
+				})}
+			}
 			if sc.Opts.HandleViaRetry {
-				rc.Handle(mk(r.H, r.Swap))
+				rc.Handle(hdl)
 			} else {
-				cli.Handle(mk(r.H, r.Swap))
+				cli.Handle(hdl)
 			}
 			rec.Emit(netsim.Event{"e": "Handle", "h": r.H, "phase": "ret"})
 		case "release":
